@@ -336,6 +336,21 @@ func (r *c01Run) viol(oracle, sig, format string, a ...interface{}) {
 	r.vmu.Unlock()
 }
 
+// onlyTimeouts: the run recorded violations and every one of them is a call-timeout.
+func (r *c01Run) onlyTimeouts() bool {
+	r.vmu.Lock()
+	defer r.vmu.Unlock()
+	if len(r.viols) == 0 {
+		return false
+	}
+	for _, v := range r.viols {
+		if v.sig != "c01:call-timeout" {
+			return false
+		}
+	}
+	return true
+}
+
 func (r *c01Run) count(k string) {
 	r.vmu.Lock()
 	r.hist[k]++
@@ -1209,11 +1224,27 @@ func c01Run1(line string, out *hx.Out) (obs string, nontrivial bool) {
 			return "bad-case", false
 		}
 		seed, _ := strconv.ParseInt(f["seed"], 10, 64)
-		run, done := c01NewRun(cfg, S, false)
-		run.stress(G, N, seed)
-		run.volleys(max(G, 8), 40)
-		frames := run.settle()
-		done()
+		var run *c01Run
+		var frames int
+		// a timeout verdict (a call without completion after c01CallWait) depends on the machine: it
+		// is confirmed by running the same case once more; what the first run saw is reported only if
+		// the second run times out as well. Every other violation is reported from the first run.
+		for attempt := 0; attempt < 2; attempt++ {
+			before := atomic.LoadInt32(&c01Timeouts)
+			var done func()
+			run, done = c01NewRun(cfg, S, false)
+			run.stress(G, N, seed)
+			run.volleys(max(G, 8), 40)
+			frames = run.settle()
+			done()
+			if attempt == 0 && run.onlyTimeouts() {
+				atomic.StoreInt32(&c01Timeouts, before)
+				out.Count("stress:timeout-first-run")
+				time.Sleep(2 * time.Second)
+				continue
+			}
+			break
+		}
 		run.flush(short, out)
 		out.Count("stress:cfg=" + cfg.Name())
 		out.Count(fmt.Sprintf("stress:frames<=%d", (frames/2000+1)*2000))
